@@ -846,6 +846,19 @@ struct TrieSession {
                 }
                 out(std::string(name) + " ok");
             });
+        } else if (o == "NI") {   // advance WITHOUT reading the keyword (only the id): `ni 1 <id>` / `ni 0`
+            size_t k = 0;
+            if (tk.size() != 2 || !get_slot(tk[1], k)) return (void)bad_arg(out, line);
+            Slot& s = slots[k];
+            if (s.kind == 0) return out("error empty-slot " + line);
+            guarded(out, "ni", [&] {
+                const bool r = (s.kind == 1) ? s.pit.next() : s.rit.next();
+                if (r) {
+                    out("ni 1 " + u64s(s.kind == 1 ? s.pit.id() : s.rit.id()));
+                } else {
+                    out("ni 0");
+                }
+            });
         } else if (o == "N" || o == "G") {
             size_t k = 0;
             if (tk.size() != 2 || !get_slot(tk[1], k)) return (void)bad_arg(out, line);
@@ -1197,6 +1210,16 @@ void run_bv_case(const Case& c, const Out& out) {
                 if (tk.size() == 2) {
                     for (char ch : tk[1]) b.push_back(ch == '1');
                 }
+            });
+        } else if (o == "PUSHN") {   // PUSHN <count> <bit>: push_back(bit) count times (scale tests)
+            if (tk.size() != 3 || !parse_u64(tk[1], x) || !parse_bit(tk[2], bit)) { bad_arg(out, line); continue; }
+            guarded(out, "pushn", [&] { for (std::uint64_t i = 0; i < x; ++i) b.push_back(bit); });
+        } else if (o == "BUILDQ") {  // build without dumping the state; prints size and number of ones
+            if (tk.size() != 1) { bad_arg(out, line); continue; }
+            guarded(out, "bvq", [&] {
+                bv.reset();
+                bv = std::make_unique<xcdat::bit_vector>(b, rank, sel);
+                out("bvq " + u64s(bv->size()) + " " + u64s(bv->num_ones()));
             });
         } else if (o == "SET") {
             if (tk.size() != 3 || !parse_u64(tk[1], x) || !parse_bit(tk[2], bit)) { bad_arg(out, line); continue; }
